@@ -33,8 +33,16 @@ type C18Case struct {
 var argRe = regexp.MustCompile(`^(\d{6})(?:-chain(\d+))?(?:\.ra)?$`)
 
 func genC18(t *rapid.T) C18Case {
-	if rapid.IntRange(0, 2).Draw(t, "kind") == 0 {
+	switch rapid.IntRange(0, 8).Draw(t, "kind") {
+	case 0, 1, 2:
 		return genC18Root(t)
+	case 3:
+		// --all derives id and offset from the file names with the same grammar
+		c := C18Case{Kind: "all", Cmd: rapid.SampledFrom([]string{"update", "update", "compare"}).Draw(t, "allcmd")}
+		pool := []string{"932100.ra", "932100-chain1.ra", "932100-chain2.ra", "932100-chain7.ra", "932100-chain255.ra", "932100-chain256.ra", "932100-chain257.ra", "932100-chain300.ra", "932100-chain65537.ra", "932100-chain18446744073709551617.ra", "932101.ra", "9321000.ra", "93210.ra", "932100-chain.ra", "932100-chainx.ra"}
+		n := rapid.IntRange(1, 6).Draw(t, "nall")
+		c.Files = rapid.Permutation(pool).Draw(t, "allfiles")[:n]
+		return c
 	}
 	c := C18Case{Kind: "arg"}
 	id := "932100"
@@ -133,6 +141,9 @@ func checkC18(c C18Case) Outcome {
 	if c.Kind == "root" {
 		return checkC18Root(c)
 	}
+	if c.Kind == "all" {
+		return checkC18All(c)
+	}
 	out := Outcome{Labels: []string{"kind:arg", "cmd:" + c.Cmd}, Detail: map[string]any{"arg": c.Arg, "cmd": c.Cmd}}
 	sb := cli.NewSandbox("c18")
 	defer sb.Close()
@@ -141,7 +152,11 @@ func checkC18(c C18Case) Outcome {
 	exists := map[string]bool{}
 	for _, f := range c.Files {
 		// distinct content per file: the word names the file
-		tree["regex-assembly/"+f] = "content_of_" + strings.NewReplacer("-", "_", ".", "_").Replace(f) + "\n"
+		// two entries; some files lack the final newline (generate ARG and generate - must still agree)
+		tree["regex-assembly/"+f] = "##! comment\nzz\ncontent_of_" + strings.NewReplacer("-", "_", ".", "_").Replace(f)
+		if len(f)%2 == 0 {
+			tree["regex-assembly/"+f] += "\n"
+		}
 		exists[f] = true
 	}
 	// rules: rule 932100 with a chain of 260 links (so that every accepted offset exists), rules 932101 and 000000 plain
@@ -227,7 +242,7 @@ func checkC18(c C18Case) Outcome {
 			return out
 		}
 	} else {
-		word := "content_of_" + strings.NewReplacer("-", "_", ".", "_").Replace(m.file)
+		word := "zz|content_of_" + strings.NewReplacer("-", "_", ".", "_").Replace(m.file)
 		switch c.Cmd {
 		case "generate":
 			if r.Exit != 0 || r.Stdout != word {
@@ -261,7 +276,7 @@ func checkC18(c C18Case) Outcome {
 				return out
 			}
 		case "compare":
-			if !strings.Contains(r.Stdout, "Regex of "+m.id+" has changed!") || !strings.Contains(r.Stdout, word) {
+			if !strings.Contains(r.Stdout, "Regex of "+m.id+" has changed!") || !strings.Contains(r.Stdout, strings.TrimPrefix(word, "zz|")) {
 				out.Violation = fmt.Sprintf("compare %q should compare rule %s with the regex of %s", c.Arg, m.id, m.file)
 				return out
 			}
@@ -279,6 +294,98 @@ func checkC18(c C18Case) Outcome {
 	out.NonTrivial = near
 	out.Key = c.Cmd + "\x00" + c.Arg + "\x00" + strings.Join(c.Files, ",")
 	out.Sample = map[string]any{"arg": c.Arg, "cmd": c.Cmd, "model_accepts": accept, "exit": r.Exit}
+	return out
+}
+
+var reAllFile = regexp.MustCompile(`^(\d{6})(?:-chain(\d+))?\.ra$`)
+
+// checkC18All: `update --all` / `compare --all` must treat a file whose offset is above 255 exactly like
+// the single-argument form does (reject it), never wrap it onto another rule of the chain.
+func checkC18All(c C18Case) Outcome {
+	out := Outcome{Labels: []string{"kind:all", "cmd:" + c.Cmd}, Detail: map[string]any{"files": c.Files, "cmd": c.Cmd}}
+	sb := cli.NewSandbox("c18a")
+	defer sb.Close()
+	root := sb.Path("crs")
+	tree := cli.Tree{}
+	over := false
+	for _, f := range c.Files {
+		tree["regex-assembly/"+f] = "content_of_" + strings.NewReplacer("-", "_", ".", "_").Replace(f) + "\n"
+		if m := reAllFile.FindStringSubmatch(f); m != nil && m[2] != "" {
+			if n, err := strconv.ParseUint(m[2], 10, 64); err != nil || n > 255 {
+				over = true
+			}
+		}
+	}
+	var rb strings.Builder
+	for k := 0; k <= 259; k++ {
+		rb.WriteString(fmt.Sprintf("SecRule ARGS \"@rx old-%d\" \\\n", k))
+		if k == 0 {
+			rb.WriteString("    \"id:932100,\\\n    phase:2,\\\n")
+		} else {
+			rb.WriteString("    \"")
+		}
+		if k < 259 {
+			rb.WriteString("t:none,\\\n    chain\"\n")
+		} else {
+			rb.WriteString("t:none\"\n")
+		}
+	}
+	rb.WriteString("SecRule ARGS \"@rx old-932101\" \\\n    \"id:932101,\\\n    t:none\"\n")
+	tree["rules/REQUEST-932-X.conf"] = rb.String()
+	if err := tree.Write(root); err != nil {
+		panic(err)
+	}
+	before := cli.ReadTree(root)
+	r := cli.Run(cli.Opt{Dir: sb.Root, Timeout: 60 * time.Second}, "-d", root, "regex", c.Cmd, "--all")
+	after := cli.ReadTree(root)
+	out.Detail["exit"], out.Detail["stderr"] = r.Exit, tailLines(r.Stderr, 3)
+	if over {
+		out.Labels = append(out.Labels, "has-offset-above-255")
+		if r.Exit == 0 {
+			out.Violation = fmt.Sprintf("%s --all exits 0 although an assembly file has a chain offset above 255", c.Cmd)
+			return out
+		}
+	}
+	// every rewritten operand must come from the file whose (valid) offset addresses that line
+	bl, al := strings.Split(before["rules/REQUEST-932-X.conf"], "\n"), strings.Split(after["rules/REQUEST-932-X.conf"], "\n")
+	if len(bl) != len(al) {
+		out.Violation = "the number of lines of the rules file changed"
+		return out
+	}
+	for i := range bl {
+		if bl[i] == al[i] {
+			continue
+		}
+		var k int
+		isPlain := strings.Contains(bl[i], "old-932101")
+		if !isPlain {
+			if _, err := fmt.Sscanf(strings.TrimSpace(bl[i]), "SecRule ARGS \"@rx old-%d\"", &k); err != nil {
+				out.Violation = "an unexpected line was rewritten: " + bl[i]
+				return out
+			}
+		}
+		want := fmt.Sprintf("content_of_932100_chain%d_ra", k)
+		if k == 0 {
+			want = "content_of_932100_ra"
+		}
+		if isPlain {
+			want = "content_of_932101_ra"
+		}
+		if !strings.Contains(al[i], "\"@rx "+want+"\"") {
+			out.Detail["line_before"], out.Detail["line_after"] = bl[i], al[i]
+			out.Violation = fmt.Sprintf("the operand at chain offset %d was rewritten with the regex of another file (offset wrapped or guessed)", k)
+			return out
+		}
+	}
+	for p := range after {
+		if p != "rules/REQUEST-932-X.conf" && before[p] != after[p] {
+			out.Violation = "another file was modified: " + p
+			return out
+		}
+	}
+	out.NonTrivial = over || len(c.Files) >= 2
+	out.Key = fmt.Sprint(c.Cmd, c.Files)
+	out.Sample = map[string]any{"cmd": c.Cmd + " --all", "files": c.Files, "exit": r.Exit}
 	return out
 }
 
